@@ -173,6 +173,21 @@ def run(ctx):
                     wrote = True
         if wrote and end_kind(path) == "raise":
             okref = False
+    # must-pass-through: no path returns maps (even for an empty side) without having compared widths and grid shifts
+    unchecked = []
+    n_ret = 0
+    for path in function_paths(ad.node):
+        if end_kind(path) != "return":
+            continue
+        n_ret += 1
+        cs = [(U(s_[1]), s_[2]) for s_ in path if s_[0] == "cond"]
+        w_ok = any("bin_width" in c and "!=" in c and v is False for c, v in cs) or any("bin_width" in c and "==" in c and v is True for c, v in cs)
+        s_ok = any("_shift" in c and "!=" in c and v is False for c, v in cs) or any("_shift" in c and "==" in c and v is True for c, v in cs)
+        if not (w_ok and s_ok):
+            unchecked.append(" & ".join(f"{c}={v}" for c, v in cs)[:120])
+    ctx.check(n_ret >= 2 and not unchecked, "C05.c", "FixedWidthBinning._adapt:refusals-dominate-returns",
+              f"all {n_ret} returning paths passed the width and the shift comparison",
+              f"a path returns bin maps without comparing bin widths / grid shifts (incompatible operand absorbed silently): {unchecked[:2]}", ad.where)
     conds = {U(n.test) for n in ast.walk(ad.node) if isinstance(n, ast.If)}
     ctx.check(okref and any("bin_width" in c and "!=" in c for c in conds) and any("_shift" in c and "!=" in c for c in conds), "C05.c",
               "FixedWidthBinning._adapt:refusals", "different width or shift raise before either binning is changed",
